@@ -172,3 +172,38 @@ func H_C03_del() {
 	m, _ := ps.ReadAt(buf, int64(index)*int64(psz))
 	vAssert(m == 0, "a deleted torrent returns no data")
 }
+
+// H_C03_alloc: accounting across the heap / mmap boundary: a piece of ANY length up to the piece
+// size (1 MiB: both sides of the 128 KiB mmap cut-off, page-aligned or not) gets its first
+// block, is evicted, gets a block again.
+func H_C03_alloc() {
+	psz := uint32(vParam("ps"))
+	total := vI64("total")
+	vAssume(total >= 1 && total <= 6*int64(psz)) // Del walks every piece (loop bound)
+	ps := &Pieces{}
+	ps.MetadataComplete(psz, total)
+	index := vU32("index")
+	vAssume(int64(index) < (total+int64(psz)-1)/int64(psz))
+	pl := ps.PieceLength(index)
+	base := alloc.Bytes()
+	data := vBytes("data", 16384)
+	vAssume(len(data) == 16384 || len(data) == int(pl))
+	n, _, err := ps.AddData(index, 0, data, 7)
+	if n > 0 {
+		vReach("stored")
+		vAssert(err == nil, "stored without error")
+		vAssert(alloc.Bytes() == base+int64(len(ps.pieces[index].data)), "allocated bytes == size of the buffer")
+		if pl >= 128*1024 {
+			vReach("mmap")
+		} else {
+			vReach("heap")
+		}
+	}
+	ps.mu.Lock()
+	ps.del(index, false)
+	ps.mu.Unlock()
+	vAssert(alloc.Bytes() == base, "evicting the piece gives back exactly what it took")
+	ps.AddData(index, 0, data, 7)
+	ps.Del()
+	vAssert(alloc.Bytes() == base, "deleting the torrent gives back exactly what it took")
+}
